@@ -2,7 +2,7 @@
 import ast
 
 from ..model import AnalysisError, dotted, unparse
-from ..util import FACTS, has_fact, resolved_text, sym_env, sym_resolve, POS, U, enum_paths, walk_no_nested, is_yield_call
+from ..util import callback_bodies, FACTS, has_fact, resolved_text, sym_env, sym_resolve, POS, U, enum_paths, walk_no_nested, is_yield_call
 from ..paths import call_attr, call_name
 from .c03 import facts
 from . import c04, c05
@@ -40,8 +40,7 @@ def r1_pending(ctx):
       if keep:
         ctx.ob('C06.R1', t, 'leave_pending: the caller takes over the pending mark', not cw, 'continuation registered although the caller keeps the mark', why, nontrivial=False)
       else:
-        ok = len(cw) == 1 and cw[0].args and ((isinstance(cw[0].args[0], ast.Lambda) and 'self._pending_endpoints.discard(' in U(cw[0].args[0].body)) or
-                                              (isinstance(cw[0].args[0], ast.Name) and cw[0].args[0].id in t.nested and 'self._pending_endpoints.discard(' in U(t.nested[cw[0].args[0].id].node)))
+        ok = len(cw) == 1 and bool(cw[0].args) and any('self._pending_endpoints.discard(' in U(n_) for n_, _b in callback_bodies(prog, t, cw[0].args[0]))
         ctx.ob('C06.R1', t, 'the pending mark is discarded when the new node finished opening', ok, 'continuation: %s' % [U(c) for c in cw], why)
       r = [e for e in ev if e.kind == 'ret']
       ctx.ob('C06.R1', t, 'expansion returns (open result, endpoint)', bool(r) and isinstance(r[-1].node.value, ast.Tuple) and len(r[-1].node.value.elts) == 2 and U(r[-1].node.value.elts[0]) == 'added_node',
